@@ -27,6 +27,14 @@ package elasticquota
 //     body of the plugin's periodic goroutine, called directly here) runs. Between the late creation
 //     and that migration run no event and no scheduling attempt touches the pods waiting to be moved
 //     (the real window is one second; what happens to such pods inside it is not C03's subject);
+//   * quota updates also flip the allow-lent-resource label of any quota and the is-parent label of a
+//     quota that has neither child quotas (planned ones included) nor pods labelled with it (what the
+//     webhook admits); both are meta changes that send UpdateQuota through its tree rebuild;
+//   * an assigned (reserved or bound) pod may be resized in place: an update event through the plugin's
+//     pod handler, with a new resourceVersion, that changes nothing but spec.containers[].resources.
+//     Growth by resize is not gated by any quota admission, so, like usage brought by a migration, it
+//     is exempt from the "max not lowered" clause until usage is seen within max again; the recount
+//     always uses the pod's latest object;
 //   * creating a quota over pods that are already running is, for the "max not lowered" clause, a
 //     lowering of that quota's (and, for the usage it brings along, its ancestors') max from
 //     "unlimited": usage above max found right after the migration is exempt until it is seen within
@@ -233,6 +241,7 @@ type c03Quota struct {
 	children     []string
 	lowered      map[corev1.ResourceName]bool // max lowered in this dimension and used not seen within max since
 	exists       bool                         // the quota object currently exists (late quotas start absent)
+	resized      bool                         // a pod of its subtree was resized in place
 	everLate     bool                         // was created after the start of the history at least once
 	deletions    int
 	rv           int
@@ -784,6 +793,77 @@ func (w *c03World) newPodFor(forced string) *c03Pod {
 	return p
 }
 
+// resize delivers an in-place resize of an assigned pod through the plugin's pod update handler:
+// only spec.containers[].resources changes.
+func (w *c03World) resize(p *c03Pod) {
+	c, r := w.c, w.r
+	leaf := w.quotas[p.quota]
+	used, _ := w.shadow()
+	chain := w.chain(p.quota)
+	oldReq := c03Copy(p.req)
+	grew, shrank := false, false
+	for _, d := range leaf.dims {
+		if !r.Pct(70) {
+			continue
+		}
+		cur := p.req[d]
+		// room up to the tightest max on the way to the root
+		room := int64(1) << 60
+		for _, g := range chain {
+			room = c03Min64(room, g.max[d]-used[g.name][d])
+		}
+		var nv int64
+		switch r.Weighted(25, 10, 25, 12, 13, 15) {
+		case 0:
+			nv = cur / 2
+		case 1:
+			nv = cur - 1
+		case 2:
+			nv = cur + room // usage lands exactly on the tightest max
+		case 3:
+			nv = cur + room + 1
+		case 4:
+			nv = cur + 1
+		default:
+			nv = cur + w.genAmount(d)/int64(r.Range(2, 8))
+		}
+		if nv < 0 {
+			nv = 0
+		}
+		if nv > cur {
+			grew = true
+			for _, g := range chain {
+				g.lowered[d] = true // growth that no admission check has seen; cleared when within max
+			}
+		} else if nv < cur {
+			shrank = true
+		}
+		p.req[d] = nv
+	}
+	if r.Pct(15) {
+		p.req[c03Undeclared] = w.genAmount(c03Undeclared) // must not count anywhere
+	}
+	old := p.obj
+	node := ""
+	if p.state == c03Bound {
+		node = "node-x"
+	}
+	p.obj = w.podObj(p, node)
+	w.pl.OnPodUpdate(old, p.obj)
+	for _, g := range chain {
+		g.resized = true
+	}
+	c.Op("pod-resize %s (state=%d group=%s) req %s -> %s", p.name, p.state, p.quota, c03Str(oldReq), c03Str(p.req))
+	c.Count("op_pod_resize", 1)
+	if grew {
+		c.Count("op_pod_resize_grow", 1)
+	}
+	if shrank {
+		c.Count("op_pod_resize_shrink", 1)
+	}
+	w.checkAll("after in-place resize of " + p.name)
+}
+
 func (w *c03World) deletePod(p *c03Pod, why string) {
 	w.c.Op("pod-delete %s (state=%d) %s", p.name, p.state, why)
 	w.pl.OnPodDelete(p.obj)
@@ -1006,6 +1086,15 @@ func (w *c03World) attempt(p *c03Pod) {
 			w.boundary++
 			c.Count("boundary_decisions", 1)
 		}
+		for _, v := range before {
+			if v.q.resized {
+				c.Count("attempts_after_resize_in_chain", 1)
+				if exact || oneOver {
+					c.Count("boundary_decisions_after_resize_in_chain", 1)
+				}
+				break
+			}
+		}
 		if leaf.everLate {
 			c.Count("attempts_after_migration", 1)
 			if admitted {
@@ -1223,9 +1312,40 @@ func (w *c03World) quotaUpdate() {
 	q := w.quotas[kit.Pick(r, names)]
 	used, np := w.shadow()
 	old := q.obj
-	kind := r.Weighted(25, 30, 25, 12, 8)
+	kind := r.Weighted(25, 30, 25, 12, 8, 8, 4)
 	what := ""
+	if kind == 6 {
+		// is-parent may only change on a quota without child quotas (planned ones count) and without pods
+		live, _ := w.labelled(q.name)
+		ok := len(q.children) == 0 && live == 0 && (q.isParent || len(w.leaves) >= 2)
+		if !ok {
+			kind = 5
+		}
+	}
+	if kind == 5 || kind == 6 {
+		for _, n := range w.order {
+			if g := w.quotas[n]; g.isParent {
+				for _, d := range g.dims {
+					if used[n][d] > 0 {
+						c.Count("quota_meta_change_with_assigned_pods_below_a_parent", 1)
+						break
+					}
+				}
+			}
+		}
+	}
 	switch kind {
+	case 5: // meta change that is no parent change: UpdateQuota rebuilds the whole tree
+		q.allowLent = !q.allowLent
+		what = fmt.Sprintf("lent-flip ->%v", q.allowLent)
+	case 6:
+		q.isParent = !q.isParent
+		if q.isParent {
+			w.leaves = c03Remove(w.leaves, q.name)
+		} else {
+			w.leaves = append(w.leaves, q.name)
+		}
+		what = fmt.Sprintf("isparent-flip ->%v", q.isParent)
 	case 0, 1: // max raised / lowered / set at the boundary
 		d := kit.Pick(r, q.dims)
 		oldMax := q.max[d]
@@ -1412,7 +1532,7 @@ func (s *c03Suit) newPlugin(t *testing.T, c *kit.Case, mut func(a *config.Elasti
 func TestVerifC03Admission(t *testing.T) {
 	s := &c03Suit{}
 	kit.Run(t, kit.Config{Property: "C03", Unit: "admission", Quick: 1600, Thorough: 48000,
-		Rule: "case k runs configuration k%4 of EnableRuntimeQuota x EnableCheckParentQuota on a fresh real Plugin: random webhook-valid quota tree (3-6 groups, depth<=3, per-subtree dimension sets, lent/non-lent, weights) plus the default group, 1-3 nodes sized 0.3x-3x of the top-level max sum; closed loop of 50-150 scheduling attempts (PreFilter -> Reserve -> sometimes Unreserve, retries of rejected pods) interleaved with pod deletions, bind echoes, stale updates, (in 35% of the histories) leaf quotas created late over pods that were admitted/bound/left pending through the default group + the plugin's migrateDefaultQuotaGroupsPod + further attempts against the new quota + deletion/re-creation of empty leaf quotas, max raised/lowered (also exactly to usage and one below), min and weight changes, node add/remove/resize, events between check and reserve; requests drawn at headroom, headroom+1, headroom-1; distinct = (config, leaf depth, #dims, default group?, late-created quota?, non-preemptible?, verdict, cited check, boundary class, limit<max?, retry?); non-trivial = case with an accepted and a rejected attempt and at least one decision within one unit of a limit"},
+		Rule: "case k runs configuration k%4 of EnableRuntimeQuota x EnableCheckParentQuota on a fresh real Plugin: random webhook-valid quota tree (3-6 groups, depth<=3, per-subtree dimension sets, lent/non-lent, weights) plus the default group, 1-3 nodes sized 0.3x-3x of the top-level max sum; closed loop of 50-150 scheduling attempts (PreFilter -> Reserve -> sometimes Unreserve, retries of rejected pods) interleaved with pod deletions, bind echoes, stale updates, (in 35% of the histories) leaf quotas created late over pods that were admitted/bound/left pending through the default group + the plugin's migrateDefaultQuotaGroupsPod + further attempts against the new quota + deletion/re-creation of empty leaf quotas, in-place resizes of assigned pods through the plugin's pod update handler, max raised/lowered (also exactly to usage and one below), min and weight changes, allow-lent and is-parent flips (tree rebuild), node add/remove/resize, events between check and reserve; requests drawn at headroom, headroom+1, headroom-1; distinct = (config, leaf depth, #dims, default group?, late-created quota?, non-preemptible?, verdict, cited check, boundary class, limit<max?, retry?); non-trivial = case with an accepted and a rejected attempt and at least one decision within one unit of a limit"},
 		func(c *kit.Case) {
 			r := c.R
 			w := &c03World{c: c, r: r, quotas: map[string]*c03Quota{}}
@@ -1486,7 +1606,7 @@ func TestVerifC03Admission(t *testing.T) {
 						w.lateCreate(w.quotas[w.absent[0]])
 					}
 				}
-				switch r.Weighted(55, 12, 5, 8, 3, 10, 7, lateW, delW) {
+				switch r.Weighted(55, 12, 5, 8, 3, 10, 7, lateW, delW, 5) {
 				case 0: // scheduling attempt: a waiting pod is retried, or a new pod arrives
 					pend := w.inState(c03Pending)
 					var p *c03Pod
@@ -1557,6 +1677,14 @@ func TestVerifC03Admission(t *testing.T) {
 					}
 				case 8:
 					w.deleteQuota()
+				case 9: // in-place resize of an assigned pod (mostly a bound one)
+					l := w.inState(c03Bound)
+					if len(l) == 0 || r.Pct(20) {
+						l = append(l, w.inState(c03Reserved)...)
+					}
+					if len(l) > 0 {
+						w.resize(kit.Pick(r, l))
+					}
 				}
 			}
 			if w.accepted > 0 && w.rejected > 0 && w.boundary > 0 {
